@@ -247,6 +247,52 @@ def callJac (c : SContent) (t : Rat) (xs : List Rat) : Except Err (Option (List 
       | some n => .error (.nameError n)
       | none => pure (some (f.jac.map fun row => row.map (evalS (lamEnv f t xs ps))))
 
+/-! ### the closure after `fix: recompile the Jacobian when parameter values have changed …`
+
+`jac_fn` keeps the compiled function together with the tuple of parameter values it was compiled
+for; every call reads the model's CURRENT parameter values and compiles again when the tuple
+differs (derived parameters and parameter-only coefficients are numbers inside the compiled
+matrix).  `now` is the content of the (mutable) model at the time of the call. -/
+
+structure JacClosure where
+  fn : JacFn
+  vals : List Rat
+deriving Inhabited
+
+/-- what `_initialise_integrator` installs (`none` = fallback without Jacobian) -/
+def installJac (c : SContent) : Option JacClosure :=
+  match simJacobian c, jacArgs c with
+  | some f, .ok (_, _, pv) => some ⟨f, pv⟩
+  | _, _ => none
+
+/-- `_compile_jac()`; inside the closure nothing catches what it raises -/
+def compileJac (c : SContent) : Except Err JacFn := do
+  let es ← toSymbolic c
+  let (vn, pn, _) ← jacArgs c
+  pure { varNames := vn, parNames := pn, jac := jacobianOf es vn }
+
+/-- `_compiled["fn"](t, x, list(values))` -/
+def evalJacFn (f : JacFn) (t : Rat) (xs ps : List Rat) : Except Err (List (List Rat)) :=
+  if xs.length != f.varNames.length then .error (.valueError "not enough values to unpack")
+  else match f.unbound with
+    | some n => .error (.nameError n)
+    | none => pure (f.jac.map fun row => row.map (evalS (lamEnv f t xs ps)))
+
+/-- `jac_fn(t, x)` while the model's content is `now`; returns the closure's new state too -/
+def JacClosure.call (cl : JacClosure) (now : SContent) (t : Rat) (xs : List Rat) :
+    Except Err (JacClosure × List (List Rat)) := do
+  let (_, _, values) ← jacArgs now
+  let cl' ← if values != cl.vals then do
+      let f ← compileJac now
+      pure ({ fn := f, vals := values } : JacClosure)
+    else pure cl
+  let J ← evalJacFn cl'.fn t xs values
+  pure (cl', J)
+
+/-- `Model.update_parameter(k, v)` on the content (the named parameter gets the plain value) -/
+def SContent.setPar (c : SContent) (k : Name) (v : Rat) : SContent :=
+  { c with pars := c.pars.map fun kv => if kv.1 == k then (kv.1, SVal.plain v) else kv }
+
 /-! ### the environment in which symbolic and numeric sides are compared -/
 
 /-- values of the model symbols at state `xs`: data, variables, plain parameters -/
